@@ -17,6 +17,14 @@ Terminology
                       not re-created by replay  (tagged [C20-A])
   asymmetry B         a TSB capture carries the empty delta of every non-ticking collection field;
                       applying it validates a TSS/TSD field that was never valid  (tagged [C20-B])
+
+Recover / as-of stream (streams `recover-*`, harness/drv_recover.cpp -> .build/hgv_recover): the same histories
+recorded SPARSELY (':memory:' backend) and read back the way a recovering component reads them:
+record_replay::recorded_seed_resolver(start_time = cycle c) for EVERY cycle c of the run.  Decided on the
+implementation output alone: the as-of state equals the value the live stream held at c (and that value is the
+obvious fold of the input ticks up to c), the sparse recording is the input history, and the ordinary sparse
+replay of the recording re-records the same ticks with the same values.  Only replayable histories are generated
+there (no same-cycle remove + re-add, none of the asymmetries A/B/C).
 """
 import os, re
 from vlib import Case, Stream, BUILD, model_cmd
@@ -31,7 +39,7 @@ THEOREMS = [
     "HgVerif.Delta.emptyTick_not_replayed", "HgVerif.Delta.bundleDefault_validates",
     "HgVerif.Delta.ghostKey_not_recorded", "HgVerif.Delta.apply_capture_unrestricted_false",
 ]
-CXX_TARGETS = ["hgv_replay"]
+CXX_TARGETS = ["hgv_replay", "hgv_recover"]
 RULE = ("generated schemas to depth 3 (4 in thorough) over TS/SIGNAL/TSW/TSS/TSD/TSL/TSB with Int and Str scalars, "
         "histories of 2-15 ticks with gaps; a case is non-trivial when the schema is nested (depth >= 2) and the "
         "history contains a key/element removal, a re-add of a removed key, or a child-only tick; distinct by sha1 "
@@ -404,9 +412,10 @@ FIXED_SCHEMAS = [
 
 class Ctx:
     """remembers recently removed keys so that remove + re-add happens often"""
-    def __init__(self, rng):
+    def __init__(self, rng, key_univ=UNIV):
         self.rng = rng
         self.graveyard = []
+        self.key_univ = key_univ          # dictionary keys are drawn from 0..key_univ-1 (small = many re-adds)
 
 
 def gen_tick(cx, s, st, fresh_child=False):
@@ -442,7 +451,7 @@ def gen_tick(cx, s, st, fresh_child=False):
         mod = {}
         for key in rng.sample(stay, min(len(stay), rng.choice([0, 1, 1, 2]))):      # child-only ticks
             mod[key] = gen_tick(cx, s[2], cur[key])
-        absent = [x for x in range(UNIV) if x not in cur]
+        absent = [x for x in range(cx.key_univ) if x not in cur]
         nnew = rng.choice([0, 1, 1, 2]) if keys else rng.choice([1, 2, 3])
         for _ in range(nnew):
             cand = [x for x in cx.graveyard if x in absent and x not in mod] if rng.random() < 0.6 else []
@@ -520,6 +529,76 @@ def gen_case(rng, idx, kind, maxd, maxticks):
     return Case(lines, {"kind": kind})
 
 
+# ------------------------------------------------------------------ recover / as-of stream: generator
+COLL_CHILDREN = [   # collection-valued dictionary children (the shapes whose slot state survives an erase in one cycle)
+    "TSS<Int>", "TSS<Int>", "TSS<Str>", "TSD<Int,TS<Int>>", "TSD<Str,TS<Int>>", "TSD<Int,TSS<Int>>",
+    "TSL<TS<Int>,2>", "TSL<TSS<Int>,2>", "TSL<TS<Str>,3>", "TSB<a:TS<Int>,b:TSS<Int>>", "TSB<a:TSS<Int>,b:TSD<Int,TS<Int>>>",
+    "TSD<Int,TSL<TS<Int>,2>>", "TSB<a:TS<Int>,b:TS<Str>>", "TSL<TSW<Int,2,1>,2>",
+]
+RECOVER_FIXED = [   # the shapes of seeded/s35's demo and their neighbours
+    "TSD<Int,TSS<Int>>", "TSD<Int,TSD<Int,TS<Int>>>", "TSD<Int,TSL<TS<Int>,2>>", "TSW<Int,3,1>", "TSW<Int,2,2>",
+    "TSD<Int,TS<Int>>", "TSS<Int>", "TS<Int>", "TSL<TSS<Int>,2>", "TSB<a:TS<Int>,b:TSS<Int>>",
+]
+
+
+def gen_recover_schema(rng, maxd):
+    r = rng.random()
+    if r < 0.5:        # dictionary of collections, sometimes under one more level
+        inner = "TSD<%s,%s>" % (rng.choice(["Int", "Int", "Str"]), rng.choice(COLL_CHILDREN))
+        w = rng.random()
+        if w < 0.12:
+            inner = "TSL<%s,2>" % inner
+        elif w < 0.24:
+            inner = "TSB<a:TS<Int>,b:%s>" % inner
+        elif w < 0.32:
+            inner = "TSD<Int,%s>" % inner
+        return parse_schema(Cur(inner))
+    if r < 0.65:       # windows
+        win = "TSW<Int,%d,%d>" % (rng.randint(1, 4), rng.randint(1, 2))
+        w = rng.random()
+        if w < 0.55:
+            return parse_schema(Cur(win))
+        if w < 0.7:
+            return parse_schema(Cur("TSL<%s,2>" % win))
+        if w < 0.85:
+            return parse_schema(Cur("TSD<Int,%s>" % win))
+        return parse_schema(Cur("TSB<a:%s,b:TS<Int>>" % win))
+    if r < 0.8:
+        return parse_schema(Cur(rng.choice(RECOVER_FIXED)))
+    return gen_schema(rng, rng.randint(1, maxd))
+
+
+def gen_recover_case(rng, idx, maxd, maxticks):
+    s = gen_recover_schema(rng, maxd)
+    cx = Ctx(rng, key_univ=rng.choice([2, 3, 3, 4, UNIV]))
+    lines = ["case %d" % idx, "schema " + schema_text(s)]
+    st = fresh(s)
+    cyc = rng.choice([0, 0, 1, 2, 3])                  # start times before the first event exist when cyc > 0
+    for _ in range(rng.randint(3, maxticks)):
+        d = gen_tick(cx, s, st)
+        st = spec_apply(s, st, d)
+        lines.append("tick %d %s" % (cyc, show_delta(s, canon(s, d))))
+        cyc += rng.choice([1, 1, 1, 2, 3])
+    lines += ["record", "asof", "onetime", "replay", "values"]
+    return Case(lines, {"kind": "wf"})
+
+
+RECOVER_DIRECTED = [   # the histories of seeded/s35/drv_demo.cpp
+    ["schema TS<Int>", "tick 0 1", "tick 3 3", "tick 4 3", "tick 6 7"],
+    ["schema TSS<Int>", "tick 0 {+1,+2}", "tick 1 {+3,-1}", "tick 3 {+1,-2}", "tick 4 {-3}"],
+    ["schema TSD<Int,TS<Int>>", "tick 0 {1=10,2=20}", "tick 1 {-2,1=11}", "tick 3 {2=7}", "tick 4 {-1}", "tick 5 {1=5}"],
+    ["schema TSL<TSS<Int>,2>", "tick 0 [1={+1,+2}]", "tick 1 [0={+9}]", "tick 3 [0={-9},1={+3,-1}]"],
+    ["schema TSB<a:TS<Int>,b:TSS<Int>>", "tick 0 (a=1,b={+1})", "tick 1 (a=2,b={})", "tick 3 (b={+2,-1})"],
+    ["schema TSD<Int,TSS<Int>>", "tick 0 {1={+1,+2},2={+5}}", "tick 1 {1={+4,-1}}", "tick 3 {-2}", "tick 4 {3={+8}}"],
+    ["schema TSD<Int,TSS<Int>>", "tick 0 {1={+1,+2},2={+5}}", "tick 1 {1={+4,-1}}", "tick 2 {-1}", "tick 4 {1={+3}}", "tick 5 {1={+6}}"],
+    ["schema TSD<Int,TSD<Int,TS<Int>>>", "tick 0 {1={1=1,2=2}}", "tick 1 {-1}", "tick 4 {1={3=3}}"],
+    ["schema TSD<Int,TSL<TS<Int>,2>>", "tick 0 {1=[0=1,1=2]}", "tick 1 {-1}", "tick 2 {1=[0=5]}"],
+    ["schema TSW<Int,3,1>", "tick 0 1", "tick 1 2", "tick 3 3", "tick 4 4"],
+    ["schema TSW<Int,2,2>", "tick 2 1", "tick 3 2", "tick 5 3"],
+    ["schema TSD<Int,TSS<Int>>"],
+]
+
+
 DIRECTED = [   # minimal inputs for the two asymmetries and for the apply quirks (model must agree on all of them)
     ["schema TSS<Int>", "tick 0 {+1,+2}", "tick 1 {+1}"],
     ["schema TSD<Int,TSS<Int>>", "tick 0 {1={+2}}", "tick 1 {1={+2}}"],
@@ -556,6 +635,13 @@ def streams(rng, tier, seed):
                           [Case(["case %d" % i] + b + tail_graph) for i, b in enumerate(bodies)]))
         out.append(Stream("any-delta-bare-output", exe, model_cmd("C20"),
                           [Case(["case %d" % i] + b + tail_direct) for i, b in enumerate(bodies)]))
+    # recover / as-of: generated last, so the cases of the streams above do not depend on it
+    n_rec = 260 if quick else 8000
+    rexe = [os.path.join(BUILD, "hgv_recover")]
+    rtail = ["record", "asof", "onetime", "replay", "values"]
+    rcases = [Case(["case %d" % (9100 + i)] + list(b) + rtail, {"kind": "wf"}) for i, b in enumerate(RECOVER_DIRECTED)]
+    rcases += [gen_recover_case(rng, i, maxd, maxt) for i in range(n_rec)]
+    out.append(Stream("recover-asof", rexe, model_cmd("C20"), rcases))
     return out
 
 
@@ -830,15 +916,223 @@ def _features_of(s, st, d, feats, seen_removed):
             _features_of(s[1][i], st[i], cd, feats, set())
 
 
+# ------------------------------------------------------------------ recover / as-of stream: monitor
+def show_value(s, st, top=True):
+    """text of Value{ts.value()} for the spec state `st` (print_value of harness/drv_recover.cpp): a copied value keeps
+    validity only for bundle fields; other never-valid positions read as the default of their value type"""
+    if top:
+        return show_value(s, st, False) if is_valid(s, st) else "-"
+    k = s[0]
+    if k == 'TS':
+        return ("" if s[1] else "0") if st is None else sc(s[1], st)
+    if k == 'SIGNAL':
+        return "F" if st is None else "T"
+    if k == 'TSW':
+        w = list(st or [])
+        return "<" + ";".join(str(x) for x in w + [0] * (s[1] - len(w))) + ">"
+    if k == 'TSS':
+        return "{" + ",".join(sc(s[1], x) for x in sorted(st or ())) + "}"
+    if k == 'TSD':
+        return "{" + ",".join(sc(s[1], x) + "=" + show_value(s[2], (st or {})[x], False) for x in sorted(st or {})) + "}"
+    if k == 'TSL':
+        return "[" + ",".join(show_value(s[1], c, False) for c in st) + "]"
+    if k == 'TSB':
+        return "(" + ",".join("%s=%s" % (chr(97 + i), show_value(c, st[i], False) if is_valid(c, st[i]) else "_")
+                              for i, c in enumerate(s[1])) + ")"
+    raise ValueError(k)
+
+
+def _entries(o, tag):
+    """'<tag> c:text c:text ...' -> [(c, text)] or None"""
+    p = o.split(" ")
+    if not p or p[0] != tag:
+        return None
+    res = []
+    for t in p[1:]:
+        cyc, sep, rest = t.partition(":")
+        if not sep or not cyc.isdigit():
+            return None
+        res.append((int(cyc), rest))
+    return res
+
+
+def _has_coll_child(s):
+    return s[0] == 'TSD' and is_collection(s[2])
+
+
+def _readd_collection(s, st, d, removed_at, feats, path=()):
+    """feature: a key of a dictionary with a collection-valued child is added again in a cycle after its removal"""
+    k = s[0]
+    if k == 'TSD':
+        cur = st or {}
+        for key in d[0]:
+            removed_at.add(path + (key,))
+        for key, cd in d[1].items():
+            if key not in cur and (path + (key,)) in removed_at and is_collection(s[2]):
+                feats.add("recover:re-add-of-collection-child")
+            _readd_collection(s[2], cur.get(key, fresh(s[2])), cd, removed_at, feats, path + (key,))
+    elif k == 'TSL':
+        for i, cd in d.items():
+            if 0 <= i < s[2]:
+                _readd_collection(s[1], st[i], cd, removed_at, feats, path + ("#%d" % i,))
+    elif k == 'TSB':
+        for i, cd in d.items():
+            _readd_collection(s[1][i], st[i], cd, removed_at, feats, path + (".%d" % i,))
+
+
+def _contains_kind(s, kind):
+    k = s[0]
+    if k == kind:
+        return True
+    if k == 'TSD':
+        return _contains_kind(s[2], kind)
+    if k == 'TSL':
+        return _contains_kind(s[1], kind)
+    if k == 'TSB':
+        return any(_contains_kind(c, kind) for c in s[1])
+    return False
+
+
+def _analyse_recover(case, out):
+    bad, feats = [], set()
+    s, ticks, parse_bad = None, [], []
+    got = {}
+    for ln, o in zip(case.lines, list(out) + ["<none>"] * len(case.lines)):
+        w = ln.split()
+        if not w:
+            continue
+        if w[0] == "schema" and len(w) == 2:
+            ticks, got = [], {}
+            try:
+                s = parse_schema(Cur(w[1])) if o == "ok" else None
+            except Exception:
+                s = None
+        elif w[0] == "tick" and len(w) == 3 and s is not None:
+            if o == "ok":
+                try:
+                    ticks.append((int(w[1]), parse_delta(s, Cur(w[2]))))
+                except Exception as e:
+                    parse_bad.append("monitor cannot parse accepted tick %r: %s" % (ln, e))
+        elif w[0] in ("record", "asof", "onetime", "replay", "values") and len(w) == 1:
+            got[w[0]] = o
+    if s is None:
+        return bad, feats
+    feats.add("recover:kind-" + s[0]); feats.add("recover:depth-%d" % depth(s))
+    # the history: replayable?  (only those are in the scope of this stream; shrink candidates that leave it say nothing)
+    st, ok_hist, states = fresh(s), True, []
+    removed_at = set()
+    for cyc, d in ticks:
+        if ok_hist and not replayable(s, st, d):
+            ok_hist = False
+        if ok_hist:
+            _readd_collection(s, st, d, removed_at, feats)
+        st = spec_apply(s, st, d)
+        states.append((cyc, st))
+    if not ok_hist:
+        feats.add("recover:history-not-replayable")
+        return [], feats
+    bad += parse_bad
+    if _contains_kind(s, 'TSW') and len(ticks) >= 2:
+        feats.add("recover:window-with-several-entries")
+    if ticks and ticks[0][0] > 0:
+        feats.add("recover:as-of-before-first-entry")
+    if any(b[0] > a[0] + 1 for a, b in zip(ticks, ticks[1:])):
+        feats.add("recover:as-of-between-entries")
+
+    def value_at(c):
+        cur = fresh(s)
+        for cyc, stc in states:
+            if cyc <= c:
+                cur = stc
+        return show_value(s, cur)
+
+    exp_rec = [(cyc, show_delta(s, canon(s, d))) for cyc, d in ticks]
+    # 1. the sparse recording is the input history
+    rec = _entries(got.get("record", ""), "srec")
+    if "record" in got:
+        if rec is None:
+            bad.append(MSG_0 + "recover: sparse record run failed: %s" % got["record"][:80])
+        elif rec != exp_rec:
+            diff = [x for x in rec if x not in exp_rec][:1] + [x for x in exp_rec if x not in rec][:1]
+            bad.append(MSG_0 + "recover: the sparse recording is not the input history (canonical form): %d entries, expected %d, "
+                       "first differing %s" % (len(rec), len(exp_rec), diff))
+    # 2. the as-of read at EVERY cycle
+    if "asof" in got and rec is not None:
+        asof = _entries(got["asof"], "asof")
+        hi = (rec[-1][0] if rec else 0) + 2
+        if asof is None or [c for c, _ in asof] != list(range(hi + 1)):
+            bad.append(MSG_0 + "recover: as-of output is not one entry per cycle 0..%d: %s" % (hi, got["asof"][:80]))
+        else:
+            feats.add("recover:as-of-after-last-entry")
+            for c, t in asof:
+                parts = t.split("|")
+                if len(parts) != 3:
+                    bad.append(MSG_0 + "recover: malformed as-of entry %d:%s" % (c, t))
+                    break
+                a, lv, eq = parts
+                want = value_at(c)
+                if a.startswith("err:"):
+                    bad.append(MSG_0 + "recover: reading the recording as of cycle %d throws (%s); the recorded stream held %s there"
+                               % (c, a, lv))
+                    break
+                if a != lv or eq != "=":
+                    bad.append(MSG_0 + "recover: state of the recording as of cycle %d is %s but the recorded stream held %s there%s"
+                               % (c, a, lv, "" if a != lv else " (Value::equals says different)"))
+                    break
+                if lv != want:
+                    bad.append(MSG_0 + "recover: the live stream held %s at cycle %d, folding the input ticks up to there gives %s"
+                               % (lv, c, want))
+                    break
+    # 3. what folding everything through ONE view would give (coverage only: the resolver must not do that)
+    if "onetime" in got and "asof" in got:
+        one, asof = _entries(got["onetime"], "onetime"), _entries(got["asof"], "asof")
+        if one and asof and len(one) == len(asof):
+            for (c, t), (_, a) in zip(one, asof):
+                if t.startswith("err:"):
+                    feats.add("recover:one-view-fold-would-throw")
+                elif t != a.split("|")[0]:
+                    feats.add("recover:one-view-fold-would-differ")
+    # 4. the ordinary (sparse) replay of the recording
+    if "replay" in got and rec is not None:
+        rec2 = _entries(got["replay"], "srec2")
+        if rec2 is None:
+            bad.append(MSG_0 + "recover: replay of the sparse recording failed: %s" % got["replay"][:80])
+        elif rec2 != rec:
+            diff = [x for x in rec2 if x not in rec][:1] + [x for x in rec if x not in rec2][:1]
+            bad.append(MSG_0 + "recover: replaying the sparse recording and recording again gives other ticks: %s" % diff)
+    if "values" in got and rec is not None:
+        vals = _entries(got["values"], "vals")
+        if vals is None:
+            bad.append(MSG_0 + "recover: no values: %s" % got["values"][:80])
+        else:
+            if [c for c, _ in vals] != [c for c, _ in exp_rec]:
+                bad.append(MSG_0 + "recover: the streams ticked in cycles %s, the input history in %s"
+                           % ([c for c, _ in vals], [c for c, _ in exp_rec]))
+            for c, t in vals:
+                a, _, b = t.partition("|")
+                if a != b:
+                    bad.append(MSG_0 + "recover: value at cycle %d: original %s, replay of the recording %s" % (c, a, b))
+                    break
+    return bad, feats
+
+
 def monitor(stream, case, out):
+    if stream.startswith("recover"):
+        return _analyse_recover(case, out)[0][:3]
     return _analyse(case, out)[0][:3]
 
 
 def features(stream, case, out):
+    if stream.startswith("recover"):
+        return sorted(_analyse_recover(case, out)[1])
     return sorted(_analyse(case, out)[1])
 
 
 def nontrivial(stream, case, out):
+    if stream.startswith("recover"):
+        f = _analyse_recover(case, out)[1]
+        return bool(f & {"recover:re-add-of-collection-child", "recover:window-with-several-entries",
+                         "recover:one-view-fold-would-differ", "recover:one-view-fold-would-throw"})
     f = _analyse(case, out)[1]
     deep = bool(f & {"depth-2", "depth-3", "depth-4"})
     return deep and bool(f & {"key-removal", "set-removal", "remove-then-re-add", "child-only-tick"})
